@@ -819,3 +819,5 @@ M("m168", "C05", "R5.3", PI, "n_changed = jnp.any(new_policy != self.policy, axi
   "policy change counted only when a component moves by more than one unit")
 B("b61", ["C19", "C14", "C16"], SPACES, "tuple(vector - mins), dimensions, mode=\"clip\")", "tuple(jnp.subtract(vector, mins)), dims=dimensions, mode=\"clip\")",
   "ravel_multi_index called with dims= by keyword and the shift written as jnp.subtract")
+B("b62", ["C09", "C12", "C10"], CKPT, "        self.checkpoint_manager.save(step, args=checkpoint.args.StandardSave(cp_state))",
+  "        self.checkpoint_manager.save(int(step), args=checkpoint.args.StandardSave(cp_state))", "the label passed through int()")
